@@ -1245,10 +1245,6 @@ fn lexical_errors_at_boundaries(c: &mut Ctx, rng: &mut Rng, per_program: usize) 
 			for (name, frag) in LEX_FRAGMENTS {
 				for style in 0..3 {
 					let src = render_with_fragment(&toks, at, frag, style);
-					if at_sign_glued(&src) {
-						c.bump("lexerr.excluded-at-sign-glued-to-token");
-						continue;
-					}
 					c.agree(&format!("lexerr-boundary.{name}"), &src, None, true);
 				}
 			}
@@ -1263,30 +1259,11 @@ fn lexical_errors_at_boundaries(c: &mut Ctx, rng: &mut Rng, per_program: usize) 
 			for (name, frag) in LEX_FRAGMENTS {
 				if always || rng.below(LEX_FRAGMENTS.len() * (toks.len() + 1)) < per_program {
 					let src = render_with_fragment(&toks, at, frag, rng.below(3));
-					if at_sign_glued(&src) {
-						c.bump("lexerr.excluded-at-sign-glued-to-token");
-						continue;
-					}
 					c.agree(&format!("lexerr-program.{name}"), &src, None, true);
 				}
 			}
 		}
 	}
-}
-
-/// EXCLUDED from the family: `@` glued to two or more non-blank characters that do not start with a
-/// quote (`@1e3 + 1`, `@ab`).  The lexer makes ONE token ERROR_STRING_VERBATIM_MISSING_QUOTES of it,
-/// both evaluator parsers reject it ("verbatim string missing opening quotes"), the rowan parser
-/// keeps it as a string token and reports nothing: the listed finding c06_rowan_ignores_lexical_errors,
-/// whose classifier does not know this message (classifiers may not be loosened from here).
-fn at_sign_glued(src: &str) -> bool {
-	let b = src.as_bytes();
-	(0..b.len()).any(|i| {
-		b[i] == b'@'
-			&& i + 2 < b.len()
-			&& !matches!(b[i + 1], b'"' | b'\'' | b' ' | b'\n' | b'\t' | b'\r')
-			&& !matches!(b[i + 2], b' ' | b'\n' | b'\t' | b'\r')
-	})
 }
 
 /// the tokens joined by blanks (`::` kept glued) with `frag` at boundary `at`:
